@@ -95,10 +95,15 @@ theorem compactN_eq (K : Bytes → Bool) (S : NStore) :
 
 /-! ### entries that differ in the value bytes only -/
 
+/-- the nested bytes of an entry as fiano sees them: an entry with an extended header never carries a
+    nested store (fixes/C10-nested-ext-header.diff), whatever its content looks like -/
+def fcx (fc : Bytes → Option Bytes) (x : Option Ext) (c : Bytes) : Option Bytes :=
+  if x.isSome then none else fc c
+
 /-- `E'` is `E` with the value replaced as the nested-bytes function `fc` says -/
 def Rel (fc : Bytes → Option Bytes) (E E' : Entry) : Prop :=
   ∃ f g n v v' x, E = .var f g n v x none ∧ E' = .var f g n v' x none ∧ v'.length = v.length ∧
-    ((fc (v ++ extSer x) = none ∧ v' = v) ∨ (fc (v ++ extSer x) = some v' ∧ x = none))
+    ((fcx fc x (v ++ extSer x) = none ∧ v' = v) ∨ (fcx fc x (v ++ extSer x) = some v' ∧ x = none))
 
 /-- `Rel`, entry by entry -/
 inductive Rels (fc : Bytes → Option Bytes) : List Entry → List Entry → Prop where
@@ -108,8 +113,8 @@ inductive Rels (fc : Bytes → Option Bytes) : List Entry → List Entry → Pro
 /-- what is known about a kept row and the compacted value it travels with -/
 def RowVal (fc : Bytes → Option Bytes) (p : Row × NValue) : Prop :=
   (∀ a nx b, p.1.entry ≠ .dead a nx b) ∧ p.2.bytes.length = p.1.entry.value.length ∧
-    ((fc p.1.entry.content = none ∧ p.2.bytes = p.1.entry.value) ∨
-     (fc p.1.entry.content = some p.2.bytes ∧ p.1.entry.ext = none))
+    ((fcx fc p.1.entry.ext p.1.entry.content = none ∧ p.2.bytes = p.1.entry.value) ∨
+     (fcx fc p.1.entry.ext p.1.entry.content = some p.2.bytes ∧ p.1.entry.ext = none))
 
 theorem compactRowsN_rel (fc : Bytes → Option Bytes) (guids : List Bytes) :
     ∀ (rows : List (Row × NValue)) (gs : List Bytes), (∀ p ∈ rows, RowVal fc p) →
@@ -264,16 +269,21 @@ theorem rels_parts (fc : Bytes → Option Bytes) (pol free free' : Nat) (G : Lis
 /-- the parsed form of the related entry is the parsed form of the entry with its content
     substituted -/
 theorem rel_expect (fc : Bytes → Option Bytes) (pol : Nat) (G : List Bytes) (off : Nat) (E E' : Entry)
-    (h : Rel fc E E') :
+    (h : Rel fc E E') (N : Nat) (hok : E.ok N = true) :
     expectNVar pol G ⟨off, E', some E'⟩ = substC (liftF fc) (expectNVar pol G ⟨off, E, some E⟩) := by
   have hs := rel_size fc E E' h
   obtain ⟨f, g, n, v, v', x, rfl, rfl, hl, hv⟩ := h
   have hcont : content (expectNVar pol G ⟨off, .var f g n v x none, some (.var f g n v x none)⟩) = v ++ extSer x := by
     rw [content_expect_nd _ _ _ (by intro a nx b hh; cases hh)]; rfl
-  have hF : liftF fc (expectNVar pol G ⟨off, .var f g n v x none, some (.var f g n v x none)⟩) = fc (v ++ extSer x) := by
-    unfold liftF
-    rw [hcont]
-    simp [expectNVar]
+  have hbit : hasBit (Entry.var f g n v x none).attrs aExtHdr = x.isSome := by
+    simp only [Entry.ok, Bool.and_eq_true, decide_eq_true_eq] at hok
+    obtain ⟨_, ⟨⟨⟨⟨hf, _⟩, _⟩, _⟩, _⟩⟩ := hok
+    exact (var_bits f g n v x none hf).2.2.2.2.2.1
+  have hF : liftF fc (expectNVar pol G ⟨off, .var f g n v x none, some (.var f g n v x none)⟩)
+      = fcx fc x (v ++ extSer x) := by
+    unfold liftF fcx
+    rw [hcont, expect_attrs, hbit]
+    cases x <;> simp [expectNVar]
   unfold substC
   rw [hF]
   rcases hv with ⟨h1, h2⟩ | ⟨h1, h2⟩
@@ -299,13 +309,14 @@ theorem rel_expect (fc : Bytes → Option Bytes) (pol : Nat) (G : List Bytes) (o
     rfl
 
 theorem rels_expect (fc : Bytes → Option Bytes) (pol : Nat) (G : List Bytes) (Es Es' : List Entry)
-    (h : Rels fc Es Es') (off : Nat) :
+    (h : Rels fc Es Es') (N : Nat) (hok : ∀ E ∈ Es, E.ok N = true) (off : Nat) :
     (varRows Es' off).map (expectNVar pol G)
       = ((varRows Es off).map (expectNVar pol G)).map (substC (liftF fc)) := by
   induction h generalizing off with
   | nil => rfl
   | cons h _ ih =>
     simp only [varRows, List.map_cons]
-    rw [rel_expect fc pol G off _ _ h, rel_size fc _ _ h, ih]
+    rw [rel_expect fc pol G off _ _ h N (hok _ (by simp)), rel_size fc _ _ h,
+      ih (fun E hE => hok E (by simp [hE]))]
 
 end Fiano.Nvram
